@@ -95,45 +95,48 @@ func c13(args []string) int {
 	oldTS := zerolog.TimestampFunc
 	zerolog.TimestampFunc = func() time.Time { return time.Unix(0, clock) }
 	defer func() { zerolog.TimestampFunc = oldTS }()
-	alphabet := []int64{1, 2, P - 1, P, P + 1, 2 * P, 3*P + 1}
-	maxLen := 6
+	alphabets := [][]int64{{1, 2, P - 1, P, P + 1, 2 * P, 3*P + 1}, {-2 * P, -P - 1, -P, -P + 1, -1, 0, 1, P}}
+	maxLens := []int{6, 5}
 	if f.Thorough() {
-		maxLen = 8
-	}
-	// 1. bounded-exhaustive Burst histories
-	nseq := 1
-	for i := 0; i < maxLen; i++ {
-		nseq *= len(alphabet)
+		maxLens = []int{8, 7}
 	}
 	var calls int64
-	seq := make([]int64, maxLen)
-	for si := 0; si < nseq; si++ {
-		if !f.Mine(si) {
-			continue
-		}
-		x := si
+	for ai, alphabet := range alphabets {
+		maxLen := maxLens[ai]
+		// 1. bounded-exhaustive Burst histories (second alphabet: readings before, at and around the Unix epoch)
+		nseq := 1
 		for i := 0; i < maxLen; i++ {
-			seq[i] = alphabet[x%len(alphabet)]
-			x /= len(alphabet)
+			nseq *= len(alphabet)
 		}
-		for burst := uint32(0); burst <= 3; burst++ {
-			for _, period := range []time.Duration{0, P} {
-				for nv := 0; nv <= 4; nv++ {
-					next, rnext, nname := mkNext(nv, P)
-					s := &zerolog.BurstSampler{Burst: burst, Period: period, NextSampler: next}
-					ref := &refBurst{burst: burst, period: int64(period), next: rnext}
-					for i := 0; i < maxLen; i++ {
-						clock = seq[i]
-						got := s.Sample(zerolog.InfoLevel)
-						want := ref.sample(clock, zerolog.InfoLevel)
-						calls++
-						if got != want {
-							out.Violate("burst-model", fmt.Sprintf("BurstSampler{Burst:%d Period:%d Next:%s} clock readings %v: call %d returned %v, specified %v", burst, period, nname, seq[:i+1], i, got, want),
-								map[string]interface{}{"check": "c13", "burst": burst, "period": int64(period), "next": nname, "clock": append([]int64(nil), seq[:i+1]...)})
-							break
+		seq := make([]int64, maxLen)
+		for si := 0; si < nseq; si++ {
+			if !f.Mine(si) {
+				continue
+			}
+			x := si
+			for i := 0; i < maxLen; i++ {
+				seq[i] = alphabet[x%len(alphabet)]
+				x /= len(alphabet)
+			}
+			for burst := uint32(0); burst <= 3; burst++ {
+				for _, period := range []time.Duration{0, P} {
+					for nv := 0; nv <= 4; nv++ {
+						next, rnext, nname := mkNext(nv, P)
+						s := &zerolog.BurstSampler{Burst: burst, Period: period, NextSampler: next}
+						ref := &refBurst{burst: burst, period: int64(period), next: rnext}
+						for i := 0; i < maxLen; i++ {
+							clock = seq[i]
+							got := s.Sample(zerolog.InfoLevel)
+							want := ref.sample(clock, zerolog.InfoLevel)
+							calls++
+							if got != want {
+								out.Violate("burst-model", fmt.Sprintf("BurstSampler{Burst:%d Period:%d Next:%s} clock readings %v: call %d returned %v, specified %v", burst, period, nname, seq[:i+1], i, got, want),
+									map[string]interface{}{"check": "c13", "burst": burst, "period": int64(period), "next": nname, "clock": append([]int64(nil), seq[:i+1]...)})
+								break
+							}
 						}
+						out.Case(uint64(ai)<<60|uint64(si)*64+uint64(burst)*16+uint64(nv)*2+uint64(period/P), burst > 0 && period > 0)
 					}
-					out.Case(uint64(si)*64+uint64(burst)*16+uint64(nv)*2+uint64(period/P), burst > 0 && period > 0)
 				}
 			}
 		}
@@ -155,12 +158,17 @@ func c13(args []string) int {
 		ref := &refBurst{burst: burst, period: int64(period), next: rnext}
 		var hist []int64
 		now := int64(1 + r.Intn(1000))
+		lo := int64(1)
+		if r.Chance(1, 4) {
+			lo = -1 << 50 // this history may run before the Unix epoch
+			now = -int64(r.Intn(5000))
+		}
 		for j := 0; j < 200; j++ {
 			switch r.Intn(5) {
 			case 0:
 				now -= int64(r.Intn(2000)) // back-step
-				if now < 1 {
-					now = 1
+				if now < lo {
+					now = lo
 				}
 			case 1:
 				now += int64(period)
@@ -169,8 +177,8 @@ func c13(args []string) int {
 			default:
 				now += int64(r.Intn(5))
 			}
-			if now < 1 {
-				now = 1
+			if now < lo {
+				now = lo
 			}
 			clock = now
 			hist = append(hist, now)
@@ -187,10 +195,10 @@ func c13(args []string) int {
 	if f.Shard == 0 {
 		c13Basic(out)
 		c13Level(out)
-		c13Logger(out, &clock)
+		c13Logger(out, f, &clock)
 		out.Sample(map[string]interface{}{"sampler": "BurstSampler{Burst:2 Period:1000 Next:Basic{2}}", "clock_readings": []int64{1, 2, 999, 1000, 1001, 2000}, "note": "returns compared call by call with the reference model"}, 5)
 	}
-	out.Extra["burst_history_length"] = maxLen
+	out.Extra["burst_history_length"] = maxLens
 	out.Exhaustive = false
 	out.Finish(f)
 	return 0
@@ -277,54 +285,216 @@ type recSampler struct {
 
 func (r recSampler) Sample(zerolog.Level) bool { *r.log = append(*r.log, r.id); return r.admit }
 
-// c13Logger: samplers behind a Logger: only events that pass the level gate consume budget; the
-// writer sees exactly the admitted ones; DisableSampling(true) admits everything.
-func c13Logger(out *evid.Out, clock *int64) {
-	for seed := uint64(0); seed < 300; seed++ {
-		r := rng.New(seed, 0xc13b)
-		w := &cntW{}
-		n := uint32(r.Intn(5))
+// ---- compositions behind a Logger ----------------------------------------------------------------------
+
+// refLevel is the reference LevelSampler: only the sampler configured for the event's level is consulted.
+type refLevel struct{ by map[zerolog.Level]refSampler }
+
+func (s refLevel) sample(now int64, lvl zerolog.Level) bool {
+	if x := s.by[lvl]; x != nil {
+		return x.sample(now, lvl)
+	}
+	return true
+}
+
+// a recorder notes that it was consulted and with which level (real and reference side write to their own log)
+type consult struct {
+	id  int
+	lvl zerolog.Level
+}
+
+type recS struct {
+	id    int
+	admit bool
+	log   *[]consult
+}
+
+func (r recS) Sample(l zerolog.Level) bool { *r.log = append(*r.log, consult{r.id, l}); return r.admit }
+
+type refRec struct {
+	id    int
+	admit bool
+	log   *[]consult
+}
+
+func (r refRec) sample(_ int64, l zerolog.Level) bool {
+	*r.log = append(*r.log, consult{r.id, l})
+	return r.admit
+}
+
+// genSampler draws a sampler composition of the given depth and its reference twin.
+func genSampler(r *rng.R, depth int, P time.Duration, nextID *int, realLog, refLog *[]consult) (zerolog.Sampler, refSampler, string) {
+	k := r.Intn(5)
+	if depth == 0 && (k == 2 || k == 3) {
+		k = r.Intn(2)
+	}
+	switch k {
+	case 0:
+		n := uint32(r.Intn(4))
+		return &zerolog.BasicSampler{N: n}, &refBasic{n: n}, fmt.Sprintf("Basic{%d}", n)
+	case 1:
+		*nextID++
+		id, admit := *nextID, r.Bool()
+		return recS{id, admit, realLog}, refRec{id, admit, refLog}, fmt.Sprintf("rec%d(%v)", id, admit)
+	case 2:
 		burst := uint32(r.Intn(3))
+		per := []time.Duration{0, P, P}[r.Intn(3)]
+		var nx zerolog.Sampler
+		var rn refSampler
+		nn := "nil"
+		if !r.Chance(1, 5) {
+			nx, rn, nn = genSampler(r, depth-1, P, nextID, realLog, refLog)
+		}
+		return &zerolog.BurstSampler{Burst: burst, Period: per, NextSampler: nx}, &refBurst{burst: burst, period: int64(per), next: rn}, fmt.Sprintf("Burst{%d,%d,%s}", burst, per, nn)
+	case 3:
+		var ls zerolog.LevelSampler
+		rl := refLevel{by: map[zerolog.Level]refSampler{}}
+		desc := "Level{"
+		for lv := zerolog.TraceLevel; lv <= zerolog.ErrorLevel; lv++ {
+			if !r.Bool() {
+				continue
+			}
+			sm, rf, d := genSampler(r, depth-1, P, nextID, realLog, refLog)
+			rl.by[lv] = rf
+			desc += fmt.Sprintf("%d:%s ", lv, d)
+			switch lv {
+			case zerolog.TraceLevel:
+				ls.TraceSampler = sm
+			case zerolog.DebugLevel:
+				ls.DebugSampler = sm
+			case zerolog.InfoLevel:
+				ls.InfoSampler = sm
+			case zerolog.WarnLevel:
+				ls.WarnSampler = sm
+			case zerolog.ErrorLevel:
+				ls.ErrorSampler = sm
+			}
+		}
+		return ls, rl, desc + "}"
+	}
+	n := uint32(2 + r.Intn(3))
+	return &zerolog.BasicSampler{N: n}, &refBasic{n: n}, fmt.Sprintf("Basic{%d}", n)
+}
+
+// c13Logger: sampler compositions behind a Logger. Only events that pass the level gate reach the sampler, with
+// the EVENT's level; the composition consults exactly the samplers the model consults, with that level; the
+// writer sees exactly the admitted events; children derived from the sampled logger share its sampler (one
+// budget); Sample(nil) removes it; DisableSampling(true) admits everything (only at the end of a history, so that
+// nothing later depends on whether a disabled sampler was still consulted).
+func c13Logger(out *evid.Out, f *evid.Flags, clock *int64) {
+	runs := f.N(3000, 100000)
+	for run := 0; run < runs; run++ {
+		r := rng.New(f.Seed, 0xc13b, uint64(run))
+		w := &cntW{}
 		P := time.Duration(50)
-		bs := &zerolog.BurstSampler{Burst: burst, Period: P, NextSampler: &zerolog.BasicSampler{N: n}}
-		ref := &refBurst{burst: burst, period: int64(P), next: &refBasic{n: n}}
-		lg := zerolog.Level(r.Intn(4))
-		gl := zerolog.Level(r.Intn(3) - 1)
+		var realLog, refLog []consult
+		nid := 0
+		sm, ref, desc := genSampler(r, 1+r.Intn(3), P, &nid, &realLog, &refLog)
+		lg := zerolog.Level(r.Intn(4) - 1)
+		gl := zerolog.Level(r.Intn(4) - 1)
 		zerolog.SetGlobalLevel(gl)
-		l := zerolog.New(w).Level(lg).Sample(bs)
+		l := zerolog.New(w).Level(lg).Sample(sm)
+		child := l.With().Str("c", "d").Logger() // shares the sampler
+		child2 := l.Output(w).Level(lg)          // still the same sampler
+		unsampled := l.Sample(nil)               // sampler removed
 		now := int64(1)
-		for i := 0; i < 120; i++ {
+		nev := 60 + r.Intn(100)
+		disableFrom := nev
+		if r.Chance(1, 3) {
+			disableFrom = nev - 1 - r.Intn(10)
+		}
+		for i := 0; i < nev; i++ {
 			now += int64(r.Intn(30))
 			*clock = now
-			ev := zerolog.Level(r.Intn(6) - 1)
-			disable := r.Chance(1, 10)
-			if disable {
-				zerolog.DisableSampling(true)
-			}
+			disable := i >= disableFrom
+			zerolog.DisableSampling(disable)
+			realLog, refLog = realLog[:0], refLog[:0]
 			w.n = 0
-			l.WithLevel(ev).Msg("m")
-			if disable {
-				zerolog.DisableSampling(false)
+			who := r.Intn(10)
+			lgr := &l
+			switch who {
+			case 0, 1:
+				lgr = &child
+			case 2:
+				lgr = &child2
+			case 3:
+				lgr = &unsampled
+			}
+			var ev zerolog.Level
+			entry := r.Intn(12)
+			switch entry {
+			case 0:
+				ev = zerolog.TraceLevel
+				lgr.Trace().Msg("m")
+			case 1:
+				ev = zerolog.DebugLevel
+				lgr.Debug().Msg("m")
+			case 2:
+				ev = zerolog.InfoLevel
+				lgr.Info().Msg("m")
+			case 3:
+				ev = zerolog.WarnLevel
+				lgr.Warn().Send()
+			case 4:
+				ev = zerolog.ErrorLevel
+				lgr.Error().Msgf("%d", 1)
+			case 5:
+				ev = zerolog.NoLevel
+				lgr.Log().Msg("m")
+			case 6:
+				ev = zerolog.DebugLevel
+				lgr.Print("m")
+			case 7:
+				ev = zerolog.NoLevel
+				lgr.Write([]byte("m\n"))
+			case 8:
+				ev = zerolog.ErrorLevel
+				lgr.Err(errTest).Msg("m")
+			default:
+				ev = zerolog.Level(r.Intn(9) - 2) // -2 .. 6: below Trace, every named level up to NoLevel
+				if ev == 4 || ev == 5 {
+					ev = zerolog.InfoLevel // Fatal / Panic would end the process / panic
+				}
+				lgr.WithLevel(ev).Msg("m")
 			}
 			want := false
-			if ev >= lg && ev >= gl {
-				if disable {
+			gated := !(ev >= lg && ev >= gl)
+			if !gated {
+				switch {
+				case disable, who == 3:
 					want = true
-				} else {
+				default:
 					want = ref.sample(now, ev)
 				}
 			}
+			ctx := func() string {
+				return fmt.Sprintf("logger(level %d, global %d).Sample(%s), event %d of level %d via entry %d on logger %d, DisableSampling=%v", lg, gl, desc, i, ev, entry, who, disable)
+			}
 			if (w.n == 1) != want {
-				out.Violate("logger-sampling", fmt.Sprintf("logger(level %d, global %d, Burst{%d,%d}->Basic{%d}) event %d level %d DisableSampling=%v: written=%v specified=%v", lg, gl, burst, P, n, i, ev, disable, w.n == 1, want),
-					map[string]interface{}{"check": "c13", "seed": seed})
+				out.Violate("logger-sampling", fmt.Sprintf("%s: written=%v specified=%v", ctx(), w.n == 1, want), map[string]interface{}{"check": "c13", "run": run})
+				break
+			}
+			if (gated || who == 3 || disable) && len(realLog) != 0 && !disable {
+				out.Violate("logger-sampling-budget", fmt.Sprintf("%s: the sampler was consulted (%v) for an event that the level gate rejected or on a logger without sampler", ctx(), realLog), map[string]interface{}{"check": "c13", "run": run})
+				break
+			}
+			if !disable && fmt.Sprint(realLog) != fmt.Sprint(refLog) {
+				out.Violate("sampler-consultation", fmt.Sprintf("%s: samplers consulted as (id, level) %v, specified %v", ctx(), realLog, refLog), map[string]interface{}{"check": "c13", "run": run})
 				break
 			}
 			out.Count("logger_sampling_events", 1)
+			if len(refLog) > 0 {
+				out.Count("logger_sampling_events_with_level_observed", 1)
+			}
 		}
-		out.Case(rng.HashStr(fmt.Sprint("logger", seed)), true)
+		zerolog.DisableSampling(false)
+		out.Case(rng.HashStr(fmt.Sprint("logger", run, desc)), true)
+		out.Count("logger_compositions", 1)
 	}
 	zerolog.SetGlobalLevel(zerolog.TraceLevel)
 }
+
+var errTest = fmt.Errorf("e")
 
 // ---- concurrent BasicSampler ---------------------------------------------------------------------------
 
